@@ -815,6 +815,25 @@ def check_euclid_t(case, rec):
             f"{what}: anisometrize(isometrize(x)) != x",
             dict(tags, kind="roundtrip"),
         )
+    # per-axis length scales assigned as a list on the (by now used) model: the ratios follow, time is scaled by the new last ratio
+    ang_l = expect_angles(steps[-1][1])
+    L0 = float(model.len_scale)
+    anis_n = np.array([0.5 * float(a_) + 0.25 for a_ in anis], dtype=float)
+    with common.quiet():
+        model.len_scale = [L0] + [float(L0 * a_) for a_ in anis_n]
+        iso_n = np.asarray(lib(model.isometrize, pos.copy(), _tags=tags), dtype=float)
+        model.len_scale = [L0] + [float(L0 * float(a_)) for a_ in anis]
+        iso_b = np.asarray(lib(model.isometrize, pos.copy(), _tags=tags), dtype=float)
+    rec.label("len_scale_list_on_used_model")
+    sc_n = max(1.0, float(np.max(np.abs(pos)))) * max(1.0, float(np.max(1.0 / anis_n)), float(np.max(1.0 / np.asarray(anis, dtype=float))))
+    sp_n = geo.isometrize(sdim, ang_l[:nsp], anis_n[: sdim - 1], pos[:sdim]) if sdim > 1 else pos[:1].copy()
+    require(float(np.max(np.abs(iso_n[-1] - pos[-1] / anis_n[-1]))) <= 1e-12 * sc_n and float(np.max(np.abs(iso_n[:-1] - sp_n))) <= 1e-12 * sc_n,
+            f"after `model.len_scale = [...]` (one length per axis) on a used space-time model isometrize does not follow the new ratios {anis_n.tolist()} "
+            f"(time row off by {float(np.max(np.abs(iso_n[-1] - pos[-1] / anis_n[-1]))):.3g})",
+            dict(tags, kind="stale_after_len_scale_list"))
+    sp_b = geo.isometrize(sdim, ang_l[:nsp], np.asarray(anis, dtype=float)[: sdim - 1], pos[:sdim]) if sdim > 1 else pos[:1].copy()
+    require(float(np.max(np.abs(iso_b[-1] - pos[-1] / ta))) <= 1e-12 * sc_n and float(np.max(np.abs(iso_b[:-1] - sp_b))) <= 1e-12 * sc_n,
+            "after the per-axis length scales were assigned back, isometrize does not follow the restored ratios", dict(tags, kind="stale_after_len_scale_list"))
     # covariance really used by kriging: one datum, simple kriging
     ang_now = expect_angles(steps[-1][1])
     a = np.array(case["datum"], dtype=float).reshape(dim, 1)
